@@ -7,12 +7,15 @@ import common as C
 PID = "C13"
 # (the cg-matrix correspondence also uses the "C12 cg" op of TfPwaV.Model.WignerF)
 DRIVER = [("C13", "TfPwaV.Model.LSX", "LSX.handle")]
-LEAN_TARGETS = ["TfPwaV.Props.C13", "TfPwaV.Props.C13b", "TfPwaV.Props.C13d"]
-PROP_MODULES = ["TfPwaV.Props.C13", "TfPwaV.Props.C13b", "TfPwaV.Props.C13d"]
-ALL_MODULES = ["TfPwaV.Model.LS", "TfPwaV.Model.LSX", "TfPwaV.Model.LSGram", "TfPwaV.Props.C13", "TfPwaV.Props.C13b", "TfPwaV.Props.C13d"] + ["TfPwaV.Proofs.LSGram%d" % i for i in range(6)]
+LEAN_TARGETS = ["TfPwaV.Props.C13", "TfPwaV.Props.C13b", "TfPwaV.Props.C13c", "TfPwaV.Props.C13d"]
+PROP_MODULES = ["TfPwaV.Props.C13", "TfPwaV.Props.C13b", "TfPwaV.Props.C13c", "TfPwaV.Props.C13d"]
+ALL_MODULES = ["TfPwaV.Model.LS", "TfPwaV.Model.LSX", "TfPwaV.Model.LSGram", "TfPwaV.Props.C13", "TfPwaV.Props.C13b", "TfPwaV.Props.C13c",
+               "TfPwaV.Proofs.LSCount", "TfPwaV.Proofs.LSCountP", "TfPwaV.Proofs.LSCountC", "TfPwaV.Props.C13d"] + ["TfPwaV.Proofs.LSGram%d" % i for i in range(6)]
 ASSUMPTIONS = [
     "spins enter GetA2BC_LS_list as int (integer) or float k/2 (half-integer), as the config loader produces them",
-    "parities/C-parities are +1/-1 or None",
+    "parities/C-parities are +1/-1 or None (ls_count_parity_all and ls_count_cparity_broken carry this as hypotheses pa, pb, pc, c = 1 or -1)",
+    "the count clause (#couplings = #independent helicity amplitudes) is about decays WITHOUT a C-parity request: with ca set the offered list is the ca=None list filtered by 'l+s integral and c=(-1)^(l+s)' (ls_cparity_is_filter), empty for half-integral s (ls_cparity_half_integer_empty), and for integral spins with parity not used has (helCount +- (min(2jb,2jc)+1))/2 entries (ls_count_cparity_broken; for equal daughter spins this is the number of exchange orbits, ls_count_cparity_exchange), which is not the helicity count of the property (kernel witness 1->1 1: 2 resp. 5 couplings vs 7 helicity pairs); the count with C-parity AND conserved parity together is characterised only as that filter, no closed form is proved",
+    "helCount / helCountParity (Model/LS.lean) are the model's statement of 'number of independent helicity amplitudes': pairs from -j..j with |lb-lc|<=J, and orbits of (lb,lc)->(-lb,-lc) with the self-conjugate pair kept iff eta=+1; they are compared on every run with the helicities enumerated by HelicityDecay.list_helicity_inner for seeded spins up to 2j=14",
     "full column rank of the LS->helicity matrix is a theorem about the exact CG model (ls_gram_orthonormal: Gram matrix = identity for all spin triples with 2j<=5, kernel-evaluated rational arithmetic with the common surd factored out); the real get_cg_matrix is tied to it by the numeric rank / orthonormality check (numpy SVD, tol 1e-9) and by the C12 correspondence of cg_coef with the same CG model",
 ]
 
@@ -80,6 +83,17 @@ def correspond_ls(ctx, res):
         small = [r for r in rows if max(r[0], r[1], r[2]) <= 5]
         rest = [r for r in rows if max(r[0], r[1], r[2]) > 5]
         rows = small + rnd.sample(rest, 12000)
+    # spins beyond the grid of the kernel-decided theorems (2j = 9..14), seeded: the all-spin theorems of Props/C13c.lean are about lsList there too
+    rnd2 = random.Random(ctx.seed + 17)
+    ps = [(a, b, c) for a in (1, -1) for b in (1, -1) for c in (1, -1)] + [(None, 1, 1), (1, None, -1), (-1, 1, None)]
+    nbig = 3000 if ctx.quick else 30000
+    for _ in range(nbig):
+        j3 = [rnd2.randint(0, 14) for _ in range(3)]
+        j3[rnd2.randrange(3)] = rnd2.randint(9, 14)
+        if rnd2.random() < 0.85 and sum(j3) % 2:
+            i = rnd2.randrange(3)
+            j3[i] = j3[i] - 1 if j3[i] else 1
+        rows.append((j3[0], j3[1], j3[2]) + rnd2.choice(ps) + (rnd2.random() < 0.5, rnd2.choice((None, None, 1, -1))))
     lines, impl = [], []
     for (ja, jb, jc, pa, pb, pc, pbk, ca) in rows:
         lines.append("C13 ls %d %d %d %s %s %s %d %s" % (ja, jb, jc, opt(pa), opt(pb), opt(pc), int(pbk), opt(ca)))
@@ -94,7 +108,7 @@ def correspond_ls(ctx, res):
         "traces_validated_against_impl": len(rows),
         "evaluations": len(rows),
         "distinct_nontrivial": nontriv,
-        "rule": "grid of doubled spins 0..8 x parity triples (incl. None) x p_break x ca; quick = all rows with 2j<=5 plus 12000 seeded rows, thorough = whole grid; non-trivial = distinct result lists with >= 2 couplings",
+        "rule": "grid of doubled spins 0..8 x parity triples (incl. None) x p_break x ca; quick = all rows with 2j<=5 plus 12000 seeded rows, thorough = whole grid; plus 3000 (thorough 30000) seeded rows with a spin 2j in 9..14; non-trivial = distinct result lists with >= 2 couplings",
         "exhaustive": not ctx.quick,
         "grid_rows": len(rows),
         "disagreements": len(dis),
@@ -208,7 +222,9 @@ def correspond_restrict(ctx, res):
 
 
 def correspond(ctx, res):
+    import c13_count
     correspond_ls(ctx, res)
+    c13_count.correspond_count(ctx, res)
     correspond_cg_matrix(ctx, res)
 
 
@@ -330,6 +346,9 @@ def search(ctx, res):
 def replay(ctx, payload):
     from tf_pwa.particle import GetA2BC_LS_list
     r = payload.get("replay", {})
+    if r.get("kind") in ("count", "count_c"):
+        import c13_count
+        return c13_count.replay_count(payload)
     if "args" in r:
         (ja, jb, jc, pa, pb, pc, pbk, ca) = r["args"]
         got = GetA2BC_LS_list(spin(ja), spin(jb), spin(jc), pa, pb, pc, p_break=pbk, ca=ca)
@@ -369,7 +388,7 @@ def replay(ctx, payload):
 
 
 MANIFEST = {
-    "text": "Lean theorems for ALL spins (unbounded): membership in the modelled (l,s) list <-> triangle/parity/C-parity rule (ls_mem_iff), strictly sorted hence duplicate-free (ls_sorted, ls_nodup), l_list and ls_list restrictions (ls_restrict, ls_restrict_pairs; a user selection that is a sub-list of the rule list is reproduced verbatim, ls_restrict_pairs_verbatim), cut criterion; kernel-decided count theorem (#couplings = #independent helicity amplitudes) on the whole 2j<=8 grid; exact orthonormality of the columns of the LS->helicity matrix, hence full rank, for all spin triples with 2j<=5 (ls_gram_orthonormal). The model is tied to GetA2BC_LS_list by exact comparison over the spin/parity grid on every run, and the restriction definitions filterL / filterLS of ls_restrict to HelicityDecay.get_ls_list(l_list= / ls_list=) on seeded decays (integer and half-integer s, int and float spellings).",
-    "note": "Model = TfPwaV.LS.lsList (hand-written, doubled spins) validated against the real GetA2BC_LS_list on the grid 2j<=8 x parities x p_break x ca (quick: 2j<=5 + 12000 sampled rows; thorough: whole grid). Full rank is proved for the exact CG model (2j<=5) and re-checked numerically on the real get_cg_matrix (2j<=5 quick, <=6 thorough); for restricted decays the matrix must be the corresponding rows of the unrestricted one (search). A user ls_list is compared in the order of the selection-rule list (the code returns the user's order verbatim; the order of couplings is not part of C13). Trusted: Lean kernel, standard axioms, harness.",
-    "technique": "Lean 4 proof (unbounded membership/no-duplicate theorems, decide +kernel count over the full grid) + exhaustive grid correspondence with the implementation",
+    "text": "Lean theorems for ALL spins (unbounded): membership in the modelled (l,s) list <-> triangle/parity/C-parity rule (ls_mem_iff), strictly sorted hence duplicate-free (ls_sorted, ls_nodup), l_list and ls_list restrictions (ls_restrict, ls_restrict_pairs; a user selection that is a sub-list of the rule list is reproduced verbatim, ls_restrict_pairs_verbatim), cut criterion; and the COUNT clause for every doubled spin triple with even sum (Props/C13c.lean, induction along (jb,jc)->(jb+1,jc+1), no grid bound): ls_count_broken_all (#couplings = #{(lb,lc): |lb-lc|<=J} when parity is violated or unknown), ls_count_parity_all (#couplings = number of orbits of (lb,lc)->(-lb,-lc) compatible with eta = pa pb pc (-1)^(ja-jb-jc), parities +-1), both without C-parity; with C-parity requested: ls_cparity_is_filter, ls_cparity_half_integer_empty, ls_count_cparity_broken (2 #couplings = helCount +- (min(2jb,2jc)+1)), ls_count_cparity_exchange (equal daughter spins: #couplings = number of orbits of (lb,lc)<->(lc,lb) compatible with H(lc,lb) = c(-1)^J H(lb,lc)) and a kernel witness that the C-restricted count is not the plain helicity count. The kernel-decided count theorems on the 2j<=8 grid are kept. Exact orthonormality of the columns of the LS->helicity matrix, hence full rank, for all spin triples with 2j<=5 (ls_gram_orthonormal). The model is tied to GetA2BC_LS_list by exact comparison over the spin/parity grid plus seeded rows with 2j up to 14 on every run; the count definitions helCount / helCountParity(etaOf) are compared with the helicities enumerated by real HelicityDecay objects (list_helicity_inner) and lsList with their get_ls_list for seeded spin triples up to 2j=14; the restriction definitions filterL / filterLS of ls_restrict with HelicityDecay.get_ls_list(l_list= / ls_list=) on seeded decays (integer and half-integer s, int and float spellings).",
+    "note": "Model = TfPwaV.LS.lsList (hand-written, doubled spins) validated against the real GetA2BC_LS_list on the grid 2j<=8 x parities x p_break x ca (quick: 2j<=5 + 12000 sampled rows; thorough: whole grid) and on 3000 (thorough 30000) seeded rows with a spin 2j in 9..14. Count clause: proved for all spins about the model definitions; validated only = that helCount / helCountParity equal what the real HelicityDecay enumerates (about 220 seeded triples x 4-5 parity settings with 2j<=14 quick, all 1800 even triples thorough) and that the real list length equals that number there (search keys ls:count, ls:count:cparity). With C-parity AND conserved parity together the count is only characterised as a filter (no closed form). Full rank is proved for the exact CG model (2j<=5) and re-checked numerically on the real get_cg_matrix (2j<=5 quick, <=6 thorough); for restricted decays the matrix must be the corresponding rows of the unrestricted one (search). A user ls_list is compared in the order of the selection-rule list (the code returns the user's order verbatim; the order of couplings is not part of C13). Trusted: Lean kernel, standard axioms, harness.",
+    "technique": "Lean 4 proof (unbounded membership/no-duplicate theorems; count clause by induction over all spin triples, core Lean + omega; decide +kernel count over the 2j<=8 grid kept; kernel-evaluated Gram matrices) + exhaustive grid correspondence with the implementation + seeded correspondence of the count definitions with HelicityDecay up to 2j=14",
 }
